@@ -13,7 +13,7 @@
    belong to inline calls; [sequential_order calls] = for the inline calls in arrival order: S c, O c 0 .. O c (n-1),
    E c, R c.  [safe calls] (C29/Safe.v) = the code paths of the burst respect one lock order (decidable); it contains
    every burst of method calls whose handlers await, register, remove, emit ([methods_only], proved below). *)
-From ZV Require Import Base.Bytes C29.Model C29.Spec C29.Steps C29.Exec C29.Judge C29.Safe C29.Proofs.
+From ZV Require Import Base.Bytes C29.Model C29.Spec C29.Steps C29.Exec C29.Judge C29.Safe C29.Replies C29.Measure C29.Proofs.
 
 (* spawn disabled => executions are sequential and in arrival order — at every moment, for all scripts and schedules *)
 Theorem C29_order : forall (calls : list call) (tr : list label) (s : sys),
@@ -37,6 +37,14 @@ Theorem C29_all_reply : forall (calls : list call) (tr : list label) (s : sys),
   ((exists lb s', step lb s = Some s') \/ (all_done s /\ replies_ok calls (log s) = true)).
 Proof. exact all_reply_thm. Qed.
 Print Assumptions C29_all_reply.
+
+(* ... and no run goes on for ever: whatever the scheduler does, a run has at most [run_bound calls] steps
+   (= twice the number of calls + the number of instructions of the burst's code, write acquisitions counted twice).
+   With C29_all_reply: after at most that many steps every call of a safe burst has its reply. *)
+Theorem C29_terminates : forall (calls : list call) (tr : list label) (s : sys),
+  reach calls tr s -> length tr <= total wt2 (init calls) + 2 * length calls.
+Proof. exact run_length_bound. Qed.
+Print Assumptions C29_terminates.
 
 (* "whatever their handlers await": bursts of method calls whose handlers await, register / remove objects and emit
    signals are in the safe class *)
